@@ -73,7 +73,7 @@ class C08(Check):
     PID = 'C08'
     RULE = ('seeded random formulas with bounded operators; sampling period drawn from {1s, 500ms, 250ms, 2s, 100us, ...} and every bound (in samples) '
             'rewritten in several equivalent spellings (unit on both ends / only end / only begin / none with the default unit; units s, ms, us, ns; '
-            'period given in another unit, also as a float such as 0.5 s); all spellings must give the result of the model with the bounds in samples, offline, online and (bounded future) '
+            'period given in another unit, also as a float such as 0.5 s); all spellings must give the result of the model with the bounds in samples, offline, online and (bounded future) offline and online '
             'after pastify; bounds that are not multiples of the period must raise RTAMTException; non-trivial = at least one bounded operator and one '
             'non-default spelling; distinct by (formula, spellings, period, data)')
 
@@ -164,16 +164,19 @@ class C08(Check):
             base = {'vars': fml.VARS[:c['nv']], 'spec': v['text'], 'unit': c['unit'], 'period': c['period'], 'consts': v.get('consts', [])}
             out.append(dict(base, monitor='discrete-offline', calls=[['evaluate', data]]))
             if fml.has_future(c['f']):
-                out.append(dict(base, monitor='discrete-online', pastify=True,
+                out.append(dict(base, monitor='discrete-online', pastify=True, _offline_pastified=dict(base, monitor='discrete-offline', pastify=True, calls=[['evaluate', data]]),
                                 calls=[['update', k, [[fml.VARS[i], c['cols'][i][k]] for i in used]] for k in range(c['n'])]))
             else:
                 out.append(dict(base, monitor='discrete-online',
                                 calls=[['update', k, [[fml.VARS[i], c['cols'][i][k]] for i in used]] for k in range(c['n'])]))
-        return out
+        extra = [o.pop('_offline_pastified') for o in out if '_offline_pastified' in o]
+        return out + extra
 
     def judge(self, c, mlines, ires):
         m = parse_fields(mlines[0])
         info = parse_fields(mlines[1])
+        nmain = 2 * len(c['variants'])
+        offp, ires = ires[nmain:], ires[:nmain]
         if 'ERROR' in m:
             return 'model-error', mlines
         if m['EXACT'] != ['1']:
@@ -215,6 +218,15 @@ class C08(Check):
                         if badk:
                             return 'violation', dict(det, expected={'source': 'rho(phi, w[0..i], i-h) with h in samples', 'values': spec}, observed=vals, differs_at=badk)
                 results.append(vals)
+        # offline evaluate() of the pastified specification = the online updates of the pastified specification (before and after pastify(), offline and online)
+        if c['kind'] != 'reject':
+            for v, i, r in zip(c['variants'], offp, results):
+                if i['setup']['status'] != 'ok' or i['calls'][0]['status'] != 'ok':
+                    return 'violation', {'spelling': v['text'], 'unit': c['unit'], 'period': c['period'], 'monitor': 'offline after pastify()', 'expected': {'online after pastify()': r},
+                                         'observed': i['setup'] if i['setup']['status'] != 'ok' else i['calls'][0]}
+                got = [p[1] for p in i['calls'][0]['value']]
+                if got != r:
+                    return 'violation', {'spelling': v['text'], 'unit': c['unit'], 'period': c['period'], 'monitor': 'offline after pastify()', 'expected': {'online after pastify()': r}, 'observed': got}
         # pastified variants must agree with each other (their relation to rho is C03's business)
         for r in results[1:]:
             if r != results[0]:
